@@ -221,3 +221,127 @@ pub(crate) fn twin_diff(
     }
     bad
 }
+
+// ---------------------------------------------------------------------------------------
+// C18: trace and call stack. Pre-state: a trace whose last entry is arbitrary (add_trace only
+// looks at the last entry) and a call stack of 0 or 1 arbitrary entries; after one control-
+// transfer handler both are compared with an independent tracer.
+// ---------------------------------------------------------------------------------------
+use crate::helpers::trace::{TraceEntry, TraceVariant};
+
+pub(crate) struct TracePre {
+    pub last: TraceEntry,
+    pub cs_len: usize,
+    pub cs0: u64,
+}
+
+pub(crate) const TR_TRACE: u32 = 1;
+pub(crate) const TR_STACK: u32 = 2;
+
+pub(crate) fn mk_trace_state(ax: &mut Axecutor, symbolic: bool) -> TracePre {
+    // The fully symbolic last entry (which exercises add_trace's level and run-length rules for every
+    // predecessor) is used for one representative form per transfer kind; the other forms start
+    // from a fixed predecessor (a call at nesting level 0), which still decides "exactly the taken
+    // transfer is recorded, with its source and target". (A symbolic predecessor in every branch
+    // harness multiplies the solver time by 6-8.)
+    let last = if symbolic {
+        let v: u8 = kani::any::<u8>();
+        kani::assume(v < 3);
+        let level: i16 = kani::any::<i16>();
+        // nesting depth within +-1000 (the level counter is an i16; deeper nesting is outside the claim)
+        kani::assume(level > -1000 && level < 1000);
+        let count: u64 = kani::any::<u32>() as u64;
+        kani::assume(count >= 1);
+        TraceEntry {
+            instr_ip: kani::any::<u64>(),
+            target: kani::any::<u64>(),
+            variant: match v {
+                0 => TraceVariant::Jump,
+                1 => TraceVariant::Call,
+                _ => TraceVariant::Return,
+            },
+            level,
+            count,
+        }
+    } else {
+        TraceEntry {
+            instr_ip: 0,
+            target: 0x40_1000,
+            variant: TraceVariant::Call,
+            level: 0,
+            count: 1,
+        }
+    };
+    ax.state.trace.push(last.clone());
+    let has_cs: bool = if symbolic { kani::any::<bool>() } else { true };
+    let cs0: u64 = if symbolic { kani::any::<u64>() } else { 0x40_1000 };
+    if has_cs {
+        ax.state.call_stack.push(cs0);
+    }
+    TracePre {
+        last,
+        cs_len: if has_cs { 1 } else { 0 },
+        cs0,
+    }
+}
+
+/// kind: 0 jump, 1 call, 2 return. `taken`: the transfer happened. Independent tracer:
+/// a taken transfer appends (ip, target, kind, level) with level = last.level +1 after a call,
+/// -1 after a return, unchanged after a jump — except that a jump equal to the last entry
+/// (same source, target, kind, level) only increments its count; an untaken branch records
+/// nothing; calls push their target on the call stack, returns pop it (no-op when empty).
+pub(crate) fn trace_diff(ax: &Axecutor, tp: &TracePre, kind: u8, taken: bool, ip: u64, target: u64) -> u32 {
+    let mut bad = 0;
+    let t = &ax.state.trace;
+    let want_level = match tp.last.variant {
+        TraceVariant::Call => tp.last.level + 1,
+        TraceVariant::Return => tp.last.level - 1,
+        TraceVariant::Jump => tp.last.level,
+    };
+    if !taken {
+        if t.len() != 1 || t[0] != tp.last {
+            bad |= TR_TRACE;
+        }
+    } else if kind == 0
+        && tp.last.variant == TraceVariant::Jump
+        && tp.last.instr_ip == ip
+        && tp.last.target == target
+    {
+        let mut e = tp.last.clone();
+        e.count += 1;
+        if t.len() != 1 || t[0] != e {
+            bad |= TR_TRACE;
+        }
+    } else {
+        let e = TraceEntry {
+            instr_ip: ip,
+            target,
+            variant: match kind {
+                0 => TraceVariant::Jump,
+                1 => TraceVariant::Call,
+                _ => TraceVariant::Return,
+            },
+            level: want_level,
+            count: 1,
+        };
+        if t.len() != 2 || t[0] != tp.last || t[1] != e {
+            bad |= TR_TRACE;
+        }
+    }
+    let cs = &ax.state.call_stack;
+    let ok = match (kind, taken) {
+        (1, true) => cs.len() == tp.cs_len + 1 && cs[tp.cs_len] == target && (tp.cs_len == 0 || cs[0] == tp.cs0),
+        (2, true) => {
+            if tp.cs_len == 0 {
+                cs.len() == 0
+            } else {
+                cs.len() == 0
+            }
+        }
+        _ => cs.len() == tp.cs_len && (tp.cs_len == 0 || cs[0] == tp.cs0),
+    };
+    if !ok {
+        bad |= TR_STACK;
+    }
+    bad
+}
